@@ -112,6 +112,8 @@ def run(tier):
         ex = [x for x in slots if not x[0].startswith("C02:index:")]
         slots = idx + random.Random(seed).sample(ex, len(ex) // 4)
     progs += slots
+    idents = list(fam.ident_products())
+    progs += idents
     progs += fam.stdlib_modules(25 if tier == "quick" else 200, 25000 if tier == "quick" else 80000)
     table = []  # (desc, cfg, returned, wellformed, status, detail)
     refused = list(fam.compile_refused())
@@ -157,6 +159,7 @@ def run(tier):
     )
     cov["programs"] = nprog
     cov["parse_ok_compile_refused_programs"] = len(refused)
+    cov["identifier_product"] = {"slots": len(fam.IDENT_SLOTS), "spellings": sorted(fam.IDENT_SPELLINGS), "placements": list(fam.SLOT_PLACEMENTS), "programs_in_this_run": sum(1 for d, *_ in table if d.startswith("C02:ident:")) // 8}
     cov["slot_product"] = {"expression_slots": len(fam.EXPR_SLOTS), "expression_fillers": len(fam.EXPR_FILLERS), "index_slots": len(fam.INDEX_SLOTS), "index_fillers": len(fam.INDEX_FILLERS), "placements": list(fam.SLOT_PLACEMENTS), "programs_in_this_run": sum(1 for d, *_ in table if d.startswith(("C02:slot:", "C02:index:"))) // 8}
     cov["evaluations"] = len(table)
     cov["distinct_nontrivial"] = sum(1 for t in table if t[2])
